@@ -16,6 +16,13 @@
            likewise; a block's locals go out of scope at its end.
            or a whole program:           prog <w> <stack_size> (fun <nparams> S ...) ...
            (function 0 is the entry point; bodies are checked trees, with the final `return;`)
+           or a run of the SOURCE SEMANTICS (LowerStmtSem.icall, the fuelled interpreter):
+                                         run <w> <stack_size> <fuel> (args z ...) (fun ...) ...
+           -> "unchecked" when Model.run_ok_b (the static hypotheses of the program theorem: scoping,
+           literals that are words, guard constants, sizes) fails, else
+           "ret" | "fault division_by_zero" | "fault stack_overflow" | "nofuel", then the output
+           bytes in decimal, tab-separated; the entry point is called with
+           (stack_size + nargs + 1) * w bytes of stack
    stdout: for a program: the lines of the state section (Model.state_section) and of the code
            section up to the runtime library (Model.lower_program), tab-separated;
            one line per body: "need <N>" (Model.need_stmts: the largest frame offset reached),
@@ -135,8 +142,28 @@ let fun_of = function
   | L (Atom "fun" :: Atom np :: ss) -> { fn_params = nat_of_int (int_of_string np); fn_body = stmts_of ss }
   | _ -> failwith "bad function"
 
+let rec nat_of_fuel n = nat_of_int n
+
 let run_line (line : string) : string =
   match tokenize line with
+  | "run" :: w :: stack :: fuel :: rest ->
+    let wz = z_of_int (int_of_string w) in
+    (match parse_all rest with
+     | L (Atom "args" :: av) :: fs ->
+       let args = List.map (function Atom a -> z_of_string a | _ -> failwith "bad argument") av in
+       let funs = List.map fun_of fs in
+       let d = Z.mul (Z.add (Z.add (z_of_int (int_of_string stack)) (z_of_int (List.length args))) (z_of_int 1)) wz in
+       if not (run_ok_b wz funs (z_of_int (int_of_string stack)) (nat_of_int (List.length args))) then "unchecked" else
+       (match icall wz funs (nat_of_fuel (int_of_string fuel)) d O args with
+        | None -> "nofuel"
+        | Some (evs, res) ->
+          String.concat "\t"
+            ((match res with
+              | CRet _ -> "ret"
+              | CFault FDivZero -> "fault division_by_zero"
+              | CFault FStackOverflow -> "fault stack_overflow")
+             :: List.map string_of_z evs))
+     | _ -> failwith "bad run line")
   | "prog" :: w :: stack :: rest ->
     let wz = z_of_int (int_of_string w) in
     let funs = List.map fun_of (parse_all rest) in
